@@ -26,6 +26,21 @@ type soundCase struct {
 	// handler that only calls Next: a neighbour must not change where the judged handler runs.
 	Neigh      *pattern
 	NeighFirst bool
+	// Ovr: custom constraints named like built-ins (int, bool, alpha, maxLen, minLen) are registered
+	Ovr bool `json:"builtin_names_overridden"`
+	// Mount: the route is registered on a sub-app (under RegPat) which the serving app mounts;
+	// Pat is then the pattern the requests have to fit: mount prefix + RegPat
+	Mount  *soundMount `json:"mount,omitempty"`
+	RegPat pattern     `json:"-"`
+}
+
+type soundMount struct {
+	Prefix           string `json:"prefix"`
+	SubCaseSensitive bool   `json:"sub_case_sensitive"`
+	SubStrict        bool   `json:"sub_strict"`
+	// where the custom constraints are registered: "parent" (the serving app only), "sub" (the
+	// mounted app only), "both"
+	ConsOn string `json:"custom_constraints_on"`
 }
 
 // literalTwin replaces one parameter token by the literal spelling of its own pattern text
@@ -41,7 +56,7 @@ func (sc *soundCase) literalTwin(r *gen.Rand) *soundCase {
 		return nil
 	}
 	k := gen.Pick(r, idx)
-	tw := &soundCase{Use: sc.Use, Cfg: sc.Cfg}
+	tw := &soundCase{Use: sc.Use, Cfg: sc.Cfg, Ovr: sc.Ovr}
 	for i, t := range sc.Pat.Toks {
 		if i == k {
 			lit := ""
@@ -69,6 +84,7 @@ var litsAfterParam = []string{"/", "/a", "/books", "-", ".", "-x", ".json", "/Ed
 
 func genSoundCase(r *gen.Rand) *soundCase {
 	sc := &soundCase{Cfg: Cfg{CaseSensitive: r.Bool(), Strict: r.Bool(), Unescape: r.Chance(1, 3), CustomCtx: r.Chance(1, 3)}, Use: r.Chance(1, 4)}
+	sc.Ovr = r.Chance(1, 4)
 	n := r.Range(1, 4) // number of params
 	names := []string{"id", "name", "p", "q", "Key", "x1"}
 	gen.Shuffle(r, names)
@@ -93,7 +109,7 @@ func genSoundCase(r *gen.Rand) *soundCase {
 		if t.Kind == tNamed || t.Kind == tNamedOpt {
 			t.Name = names[i]
 			if r.Chance(3, 4) {
-				t.Cons, good, bad, odd, dash = genCons(r)
+				t.Cons, good, bad, odd, dash = genCons(r, sc.Ovr)
 			} else {
 				good = []string{"a", "ab", "john", "x1", "A", "é"}
 			}
@@ -137,6 +153,15 @@ func genSoundCase(r *gen.Rand) *soundCase {
 		}
 	}
 	sc.Pat = pattern{Toks: toks}
+	if r.Chance(1, 4) {
+		// registered on a sub-app mounted by the serving app
+		sc.Mount = &soundMount{Prefix: gen.Pick(r, []string{"/", "/", "/m", "/Mnt", "/m/"}), SubCaseSensitive: r.Bool(), SubStrict: r.Bool(),
+			ConsOn: gen.Pick(r, []string{"parent", "sub", "both"})}
+		sc.RegPat = sc.Pat
+		eff := append([]tok(nil), toks...)
+		eff[0].Lit = strings.TrimRight(sc.Mount.Prefix, "/") + eff[0].Lit
+		sc.Pat = pattern{Toks: eff}
+	}
 	return sc
 }
 
@@ -271,6 +296,8 @@ func runSound(e *ev.Env) {
 				if len(p) > 2 {
 					p = p[:len(p)-1]
 				}
+			case 4:
+				p = strings.ToLower(p)
 			}
 			if p == "" || p[0] != '/' {
 				p = "/" + p
@@ -290,6 +317,7 @@ func runSound(e *ev.Env) {
 			twText := tw.Pat.String()
 			first := r.Bool()
 			a := *sc
+			a.Mount = nil // the pair is registered directly on the serving app
 			a.Neigh, a.NeighFirst = &tw.Pat, first
 			checkSound(e, c, &a, append([]string{twText, strings.ReplaceAll(twText, `\`, "")}, paths[:10]...))
 			b := *tw
@@ -301,9 +329,33 @@ func runSound(e *ev.Env) {
 
 func checkSound(e *ev.Env, c *ev.Case, sc *soundCase, paths []string) {
 	app := sc.Cfg.NewApp()
-	app.RegisterCustomConstraint(evenConstraint{})
-	app.RegisterCustomConstraint(lowerConstraint{})
-	app.RegisterCustomConstraint(upperConstraint{})
+	registerAll := func(a *fiber.App) {
+		a.RegisterCustomConstraint(evenConstraint{})
+		a.RegisterCustomConstraint(lowerConstraint{})
+		a.RegisterCustomConstraint(upperConstraint{})
+		if sc.Ovr {
+			for _, o := range overrideCatalogue {
+				a.RegisterCustomConstraint(o)
+			}
+		}
+	}
+	// target: the app the route is registered on
+	target := app
+	regText := sc.Pat.String()
+	if sc.Mount != nil {
+		subCfg := sc.Cfg
+		subCfg.CaseSensitive, subCfg.Strict = sc.Mount.SubCaseSensitive, sc.Mount.SubStrict
+		target = subCfg.NewApp()
+		regText = sc.RegPat.String()
+		if sc.Mount.ConsOn != "sub" {
+			registerAll(app)
+		}
+		if sc.Mount.ConsOn != "parent" {
+			registerAll(target)
+		}
+	} else {
+		registerAll(app)
+	}
 	keys := sc.Pat.paramKeys()
 	var obs soundObs
 	h := func(cx fiber.Ctx) error {
@@ -324,18 +376,21 @@ func checkSound(e *ev.Env, c *ev.Case, sc *soundCase, paths []string) {
 	if e.Guard(c, "sound|register", text, func() {
 		reg := func(pt string, hh fiber.Handler) {
 			if sc.Use {
-				app.Use(pt, hh)
+				target.Use(pt, hh)
 			} else {
-				app.Get(pt, hh)
+				target.Get(pt, hh)
 			}
 		}
 		pass := func(cx fiber.Ctx) error { return cx.Next() }
 		if sc.Neigh != nil && sc.NeighFirst {
 			reg(sc.Neigh.String(), pass)
 		}
-		reg(text, h)
+		reg(regText, h)
 		if sc.Neigh != nil && !sc.NeighFirst {
 			reg(sc.Neigh.String(), pass)
+		}
+		if sc.Mount != nil {
+			app.Use(sc.Mount.Prefix, target)
 		}
 		d = drive.NewDirect(app)
 	}) {
@@ -343,6 +398,9 @@ func checkSound(e *ev.Env, c *ev.Case, sc *soundCase, paths []string) {
 	}
 	if sc.Neigh != nil {
 		e.Stat("with_neighbour_route", 1)
+	}
+	if sc.Mount != nil {
+		e.Stat("registered_on_mounted_sub_app", 1)
 	}
 	hasCons := false
 	for _, t := range sc.Pat.Toks {
@@ -362,7 +420,11 @@ func checkSound(e *ev.Env, c *ev.Case, sc *soundCase, paths []string) {
 		e.Eval(1)
 		detail := func() map[string]any {
 			m := map[string]any{"pattern": text, "use": sc.Use, "cfg": sc.Cfg.String(), "path": p, "params": obs.vals,
-				"ctx_path": obs.path, "status": resp.Status}
+				"ctx_path": obs.path, "status": resp.Status, "builtin_names_overridden": sc.Ovr}
+			if sc.Mount != nil {
+				m["mount"] = sc.Mount
+				m["registered_on_sub_app_as"] = regText
+			}
 			if sc.Neigh != nil {
 				m["neighbour_route"] = sc.Neigh.String()
 				m["neighbour_registered_first"] = sc.NeighFirst
@@ -389,6 +451,9 @@ func checkSound(e *ev.Env, c *ev.Case, sc *soundCase, paths []string) {
 		if isPatternText && sc.Pat.nParams() > 0 {
 			class = "path-spells-pattern-text"
 		}
+		if sc.Mount != nil {
+			class += "+route-of-mounted-app"
+		}
 		// (c) structural rules
 		vals := make([]string, len(sc.Pat.Toks))
 		bad := false
@@ -412,7 +477,14 @@ func checkSound(e *ev.Env, c *ev.Case, sc *soundCase, paths []string) {
 			}
 			for _, cn := range t.Cons {
 				if evalCons(cn, v) == -1 {
-					e.Violation(c, "sound|constraint-violated|"+cn.Kind+"|"+class,
+					kind := cn.Kind
+					if cn.Ovr {
+						kind += "-overridden-by-custom-constraint"
+					}
+					if sc.Mount != nil {
+						kind += "|custom-constraints-registered-on-" + sc.Mount.ConsOn
+					}
+					e.Violation(c, "sound|constraint-violated|"+kind+"|"+class,
 						fmt.Sprintf("handler ran with %s=%q violating %s", keys[i], v, cn.text()), detail())
 					bad = true
 				}
